@@ -18,6 +18,11 @@ un-translatable obligation):
     math.frexp, round_away_zero, float * int, int(float)
   * `/` only with both operands integer-typed and a divisor literal: emitted as exact_div
     which is None when the division is not exact.
+  * plain result objects: `x = C()` where class C has only an `__init__(self)` made of `self.f = <int>`
+    lines, `x.f = e`, `return x`: the object is the tuple of its fields in __init__ order.
+  * `int(math.ceil(a / b))` with integer a, b: ceiling division -((-a) // b), None unless b > 0 (float true
+    division of ints is correctly rounded, so the float ceiling is the exact one for |a| < 2^53).
+  * `C(e1, .., en)` for a class named in the spec's "tuples" ({"Shape4D": 4}): the tuple of its arguments.
 Semantics: Python ints are Z; // and % are Z.div / Z.modulo (floor; same sign convention).
 """
 import ast
@@ -303,7 +308,25 @@ class Fn:
         if not isinstance(e.func, ast.Name):
             raise Unsupported("call target")
         f = e.func.id
+        if (f == "int" and len(e.args) == 1 and isinstance(e.args[0], ast.Call) and not e.args[0].keywords
+                and isinstance(e.args[0].func, ast.Attribute) and len(e.args[0].args) == 1
+                and isinstance(e.args[0].args[0], ast.BinOp) and isinstance(e.args[0].args[0].op, ast.Div)):
+            try:
+                inner = self.dotted(e.args[0].func)
+            except Unsupported:
+                inner = None
+            if inner == "math.ceil":
+                a, ta = self.expr(e.args[0].args[0].left, env, pre)
+                b, tb = self.expr(e.args[0].args[0].right, env, pre)
+                self.need(ta, "Z", e), self.need(tb, "Z", e)
+                v = self.fresh("c")
+                pre.append((v, "(if Z.gtb %s 0 then Some (Z.opp (Z.div (Z.opp %s) %s)) else None)" % (b, a, b)))
+                return v, "Z"
         args = [self.expr(a, env, pre) for a in e.args]
+        if f in self.spec.get("tuples", {}) and len(args) == self.spec["tuples"][f]:
+            for a in args:
+                self.need(a[1], "Z", e)
+            return "(" + ", ".join(a[0] for a in args) + ")", tuple("Z" for _ in args)
         if f in ("min", "max") and len(args) >= 2:
             for a in args:
                 self.need(a[1], "Z", e)
@@ -363,7 +386,7 @@ class Fn:
             env2[a.arg] = (t, ty)
         v = self.fresh("n")
         body = self.block(node.body, env2, None, force_option=True)
-        pre.append((v, body))
+        pre.append((v, "(" + body + ")"))  # a `let`/`if` scrutinee of `match` must be parenthesised
         self.rettype_nested = "Z"
         return v, "Z"
 
@@ -396,6 +419,9 @@ class Fn:
                 self.returns_none = True
                 return "None"
             t, ty = self.expr(s.value, env, pre)
+            if isinstance(ty, tuple) and len(ty) == 2 and ty[0] == "obj":
+                flds = [f for f, _ in self.tr.object_classes[ty[1]]]
+                t, ty = "(" + ", ".join(t[f] for f in flds) + ")", tuple("Z" for _ in flds)
             self.note_ret(ty)
             return self.wrap(pre, self.ret(t))
         if isinstance(s, ast.Assert):
@@ -468,8 +494,24 @@ class Fn:
 
     def assign(self, target, value, env, nxt):
         pre = []
+        if (isinstance(target, ast.Name) and isinstance(value, ast.Call) and isinstance(value.func, ast.Name)
+                and value.func.id in self.tr.object_classes and not value.args and not value.keywords):
+            env2 = dict(env)
+            env2[target.id] = ({f: zlit(v) for f, v in self.tr.object_classes[value.func.id]}, ("obj", value.func.id))
+            return nxt(env2)
         t, ty = self.expr(value, env, pre)
         env2 = dict(env)
+        if (isinstance(target, ast.Attribute) and isinstance(target.value, ast.Name) and target.value.id in env
+                and isinstance(env[target.value.id][1], tuple) and env[target.value.id][1][:1] == ("obj",)):
+            flds, oty = env[target.value.id]
+            if target.attr not in flds:
+                raise Unsupported("store to undeclared field %s" % target.attr)
+            self.need(ty, "Z", target)
+            v = self.fresh(target.value.id + "_" + target.attr)
+            flds2 = dict(flds)
+            flds2[target.attr] = v
+            env2[target.value.id] = (flds2, oty)
+            return self.wrap(pre, "let %s := %s in %s" % (v, t, nxt(env2)))
         if isinstance(target, ast.Name):
             if ty == "iinfo":
                 env2[target.id] = (t, ty)
@@ -617,6 +659,7 @@ class Translator:
         self.fns = {}
         self.module_consts = {}
         self.class_consts = {}
+        self.object_classes = {}  # class name -> [(field, default int)] for plain result objects
         self.errors = {}
 
     def lookup(self, name):
@@ -625,6 +668,7 @@ class Translator:
     def load_consts(self, tree):
         for n in tree.body:
             if isinstance(n, ast.ClassDef):
+                self.load_object_class(n)
                 env = {}
                 for s in n.body:
                     if isinstance(s, ast.Assign) and len(s.targets) == 1 and isinstance(s.targets[0], ast.Name):
@@ -635,6 +679,24 @@ class Translator:
                         if isinstance(v, int) and not isinstance(v, bool):
                             env[s.targets[0].id] = v
                             self.class_consts["%s.%s" % (n.name, s.targets[0].id)] = v
+
+    def load_object_class(self, n):
+        """class whose whole body is `def __init__(self): self.f = <int> ...` -> plain result object"""
+        if len(n.body) != 1 or not isinstance(n.body[0], ast.FunctionDef) or n.body[0].name != "__init__":
+            return
+        init = n.body[0]
+        if [a.arg for a in init.args.args] != ["self"] or init.args.vararg or init.args.kwarg or init.args.kwonlyargs:
+            return
+        flds = []
+        for s in init.body:
+            if not (isinstance(s, ast.Assign) and len(s.targets) == 1 and isinstance(s.targets[0], ast.Attribute)
+                    and isinstance(s.targets[0].value, ast.Name) and s.targets[0].value.id == "self"
+                    and isinstance(s.value, ast.Constant) and isinstance(s.value.value, int)
+                    and not isinstance(s.value.value, bool)):
+                return
+            flds.append((s.targets[0].attr, s.value.value))
+        if flds and len(set(f for f, _ in flds)) == len(flds):
+            self.object_classes[n.name] = flds
 
     def translate_file(self, path, wanted):
         """wanted: list of (function name, spec). Returns list of (name, text or None, error)"""
